@@ -430,7 +430,7 @@ def _compile_variant(src, name, defs, opt="-O0", timeout=3000, extra=()):
     return out, ""
 
 
-def _run_family(res, src, variants, compile_failure_is_violation=False, run_timeout=600):
+def _run_family(res, src, variants, compile_failure_is_violation=False, run_timeout=600, run_args=()):
     """variants: list of (name, defs, description). Compiles and runs them all
     on the pool; returns (cands, samples, summaries)"""
     cands, samples, sums = [], [], []
@@ -440,7 +440,7 @@ def _run_family(res, src, variants, compile_failure_is_violation=False, run_time
         binary, err = _compile_variant(src, name, defs)
         if not binary:
             return v, None, err, 0
-        rc, so, se, dt = small.run(binary, [], timeout=run_timeout)
+        rc, so, se, dt = small.run(binary, list(run_args), timeout=run_timeout)
         return v, (rc, so, se), "", dt
 
     with cf.ThreadPoolExecutor(max_workers=C.NCPU) as ex:
@@ -470,7 +470,7 @@ def _run_family(res, src, variants, compile_failure_is_violation=False, run_time
     return cands, samples, sums
 
 
-def _triage_family(res, src, cands):
+def _triage_family(res, src, cands, run_args=()):
     known = C.load_known()
     seen = set()
     for c in cands:
@@ -492,9 +492,10 @@ def _triage_family(res, src, cands):
             if c.get("kind") == "does_not_compile":
                 res.confirmed.append(c)
             continue
-        rc, so, se, dt = small.run(binary, [], timeout=600)
+        rc, so, se, dt = small.run(binary, list(run_args), timeout=1200)
         again = [x for x in small.parse(so)[0] if x["case"] == c["case"]]
         if again or rc != 0:
+            c["run_args"] = list(run_args)
             res.confirmed.append(c)
         else:
             res.harness_errors.append("candidate did not reproduce: %s :: %s" % (c["case"], c["detail"][:200]))
@@ -511,6 +512,38 @@ def _small_shapes():
                 if n <= 6 and max(a, b, c_) <= 3:
                     out.append((a, b, c_))
     return out
+
+
+@check("C09")
+def c09(res, tier, deadline):
+    res.rule = ("one generated program per real C++ class lattice {chain, tree, diamond with a "
+                "virtual base, root as second base at a non-zero offset}; inside, for each of four "
+                "policies {direct, checked, map, indirect} x every subset of the four classes "
+                "carrying definitions (16) x every (static class B, pointee class D <= B) x every "
+                "construction route {from a base reference, exact type, final, final_virtual_ptr, "
+                "converting from lvalue / const / rvalue virtual_ptr<D>, copy, shared from lvalue / "
+                "const / rvalue shared_ptr, converting shared, make_virtual_shared}: the definition "
+                "reached through the virtual_ptr (by value, by const&, and in a binary method mixed "
+                "with virtual_<T&>) equals the one reached with a plain reference; get / * / -> give "
+                "the original object; definitions see the pointee; use_count consistent. Histories: "
+                "every sequence up to the depth over {toggle each definition, update, create a "
+                "pointer by 4 routes, call through all live pointers} on the indirect and direct "
+                "policies: a pointer created before later updates (indirect) or since the last "
+                "update (direct) dispatches like a plain reference does now.")
+    res.assumptions = ["class registrations are not withdrawn while pointers to them are alive",
+                       "four lattices of four real classes; registries beyond that are covered through virtual_ptr shapes of engine E1"]
+    depth = "4" if tier == "quick" else "5"
+    variants = [("vptr_lat%d" % l, ["LATTICE=%d" % l], "lattice %d" % l) for l in range(4)]
+    cands, samples, sums = _run_family(res, "vptr.cpp", variants, run_args=[depth], run_timeout=3000)
+    for s in sums:
+        res.states += s["cases"] + s["histories"]
+        res.traces += s["cases"] + s["histories"]
+        res.nontrivial += s["cases"]
+        res.transitions += s["facts"]
+    res.bounds.append({"run": "vptr family " + tier, "complete": len(sums) == 4,
+                       "counters": {"programs": 4, "history_depth": int(depth)}})
+    res.samples = samples[:8]
+    _triage_family(res, "vptr.cpp", cands, run_args=[depth])
 
 
 @check("C20")
@@ -732,7 +765,7 @@ def replay(prop, cand, path):
                 print("VIOLATION property=%s replay=%s" % (prop, path))
                 return 1
             return 2
-        rc, so, se, dt = small.run(binary, [], timeout=600)
+        rc, so, se, dt = small.run(binary, cand.get("run_args", []), timeout=1200)
         sys.stdout.write(so[-3000:])
         again = [x for x in small.parse(so)[0] if x["case"] == cand["case"]]
         if again or rc != 0:
